@@ -248,6 +248,10 @@ type GossipSubParams struct {
 }
 
 func (params *GossipSubParams) validate() error {
+	if params.PrunePeers < 0 {
+		return fmt.Errorf("param PrunePeers=%d must not be negative", params.PrunePeers)
+	}
+
 	if !(params.HistoryGossip <= params.HistoryLength) {
 		return fmt.Errorf("param HistoryGossip=%d must be less than or equal to HistoryLength=%d", params.HistoryGossip, params.HistoryLength)
 	}
